@@ -882,8 +882,11 @@ def run_check(mod, tier, seed, only_relations=None):
         shutil.rmtree(workdir, ignore_errors=True)
     ev["wall_s"] = round(time.time() - t0, 2)
     ev["violations"] = len(violations)
-    os.makedirs(os.path.join(VERIF, "evidence"), exist_ok=True)
-    with open(os.path.join(VERIF, "evidence", f"{prop}.json"), "w") as f:
+    # evidence/ only ever describes runs against /repo itself; runs against a scratch tree
+    # (HAPTOOLS_REPO=...) used for self-tests write next to it in .work/
+    evdir = os.path.join(VERIF, "evidence") if os.path.abspath(REPO) == "/repo" else os.path.join(VERIF, ".work", "evidence_scratch")
+    os.makedirs(evdir, exist_ok=True)
+    with open(os.path.join(evdir, f"{prop}.json"), "w") as f:
         json.dump(ev, f, indent=1, default=str)
         f.write("\n")
     for ln in lines:
